@@ -317,6 +317,9 @@ func (x *Run) runBlock(fr *Frame, b *ssa.BasicBlock, idx int, st *State) []Outco
 		case *ssa.Jump:
 			return append(outs, x.enterBlock(fr, b, b.Succs[0], st)...)
 		case *ssa.Return:
+			if !blockHasRunDefers(b) {
+				x.loopExitChecks(fr, st, b)
+			}
 			var ret Val
 			if len(ins.Results) == 1 {
 				ret = x.val(fr, st, ins.Results[0])
@@ -337,6 +340,9 @@ func (x *Run) runBlock(fr *Frame, b *ssa.BasicBlock, idx int, st *State) []Outco
 			}
 			return append(outs, x.panicUnwind(fr, st, pv)...)
 		case *ssa.RunDefers:
+			if _, isRet := b.Instrs[len(b.Instrs)-1].(*ssa.Return); isRet {
+				x.loopExitChecks(fr, st, b) // before the deferred calls run
+			}
 			sts := x.runDefers(fr, st)
 			if len(sts) == 1 {
 				st = sts[0].st
@@ -871,3 +877,47 @@ func (x *Run) armFeasible(st *State, cond string) bool {
 }
 
 var feasCache sync.Map
+
+// returnsFromLoop: block b (holding a return) is reached directly from the
+// loop's body - it is in the loop, or a block outside it whose predecessors (up
+// to two steps back) are all in the loop.
+func returnsFromLoop(lp *loop, b *ssa.BasicBlock, depth int) bool {
+	if lp.blocks[b] {
+		return true
+	}
+	if depth >= 2 || len(b.Preds) == 0 {
+		return false
+	}
+	for _, p := range b.Preds {
+		if !returnsFromLoop(lp, p, depth+1) {
+			return false
+		}
+	}
+	return true
+}
+
+func blockHasRunDefers(b *ssa.BasicBlock) bool {
+	for _, ins := range b.Instrs {
+		if _, ok := ins.(*ssa.RunDefers); ok {
+			return true
+		}
+	}
+	return false
+}
+
+// loopExitChecks: a return from inside a loop that has an exit check
+// (verif:loopexit), evaluated before the function's deferred calls run.
+func (x *Run) loopExitChecks(fr *Frame, st *State, b *ssa.BasicBlock) {
+	if fr.inPure() {
+		return
+	}
+	li := x.loops(fr.fn)
+	for _, lp := range li.byHeader {
+		if fr.cut[lp.header] && returnsFromLoop(lp, b, 0) {
+			if ann := x.spec.loopAnn(fr.fn, lp.ordinal); ann != nil && ann.Exit != nil {
+				ea := &LoopAnn{Inv: ann.Exit, Args: ann.BodyArgs}
+				x.checkLoopInvExtra(fr, st, lp, ea, "exit", fr.loopHead[lp.header])
+			}
+		}
+	}
+}
